@@ -14,7 +14,10 @@ RULE = ("grammar-directed files per format (BED3/6/12, bedGraph, narrowPeak, chr
         "interior comments, pairs, GFA S-lines, SAM with header and 0-3 optional tags, VCF without/with INFO header and 0-4 "
         "genotype columns in 5 buffer flavours, 2-line and wrapped FASTA, FASTQ): 1..N records, field widths 0..18 with "
         "single-character and very unequal widths inside one column, signed ints, '.' placeholders, trailing list commas, "
-        "LF/CRLF, header/comment lines; exhaustive width vectors {1,2,3,9}^(rows x 3 cols) for BED3 and chrom.sizes. "
+        "LF/CRLF x {final line terminated, unterminated, ended by a bare LF}, FORMAT sub-fields dropped per sample, floats "
+        "without leading zero mixed with '.' missing, header/comment lines; two-file HISTORY cases in one process (same INFO "
+        "IDs with other Type/Number, same header with another buffer flavour, same column names with other declared types; both "
+        "orders); exhaustive width vectors {1,2,3,9}^(rows x 3 cols) for BED3 and chrom.sizes. "
         "Non-trivial = >= 2 rows with unequal widths in some column, or a sign / '.' / CRLF / comment line present")
 EXHAUSTIVE = {"quick": False, "thorough": False}
 MODEL_OPS = {"parse", "parse_x"}   # "parse_x" (corpus): VCF flavours with typed INFO / genotype columns, same handling
@@ -78,6 +81,10 @@ FORMATS = {
                       ("sequence", "str"), ("quality", "str"), ("extra", "rest")], comment="@"),
     "gfa": dict(suffix=".gfa", bt="GfaSequenceBuffer", cols=[("name", "id"), ("sequence", "str")], comment="#"),
     "vcf": dict(suffix=".vcf", bt="VCFBuffer", comment="#"),
+    # delimited buffers with a column-name header line (get_bufferclass_for_datatype(..., has_header=True)):
+    # the same column names, declared with different types
+    "csvi": dict(suffix=".tsv", bt="csvi", cols=[("name", "str"), ("size", "int")], comment="#", colheader=True),
+    "csvs": dict(suffix=".tsv", bt="csvs", cols=[("name", "str"), ("size", "str")], comment="#", colheader=True),
     "fasta": dict(suffix=".fa", bt="MultiLineFastaBuffer"),
     "fasta2": dict(suffix=".fa", bt="TwoLineFastaBuffer"),
     "fastq": dict(suffix=".fq", bt="FastQBuffer"),
@@ -111,7 +118,31 @@ def _tmpdir():
     return d
 
 
+_CSV = {}
+
+
+def _csv_buffer(name):
+    if name not in _CSV:
+        from bionumpy.bnpdataclass import bnpdataclass
+        from bionumpy.io.delimited_buffers import get_bufferclass_for_datatype
+
+        if name == "csvi":
+            @bnpdataclass
+            class NameSize:
+                name: str
+                size: int
+        else:
+            @bnpdataclass
+            class NameSize:
+                name: str
+                size: str
+        _CSV[name] = get_bufferclass_for_datatype(NameSize, delimiter="\t", has_header=True)
+    return _CSV[name]
+
+
 def _buffer_type(name):
+    if name in ("csvi", "csvs"):
+        return _csv_buffer(name)
     import bionumpy as bnp
     from bionumpy.io import delimited_buffers as db, vcf_buffers as vb, one_line_buffer as ol
     from bionumpy.io import multiline_buffer as ml, fastq_buffer as fq, wig, pairs
@@ -163,6 +194,8 @@ def tabulate():
     import numpy as np
     out = {}
     for fmt, F in FORMATS.items():
+        if F.get("colheader"):
+            continue
         BT = _buffer_type(F["bt"])
         dc = BT.dataclass
         cols = [(f.name, _kind_of(f.type)) for f in dataclasses.fields(dc)]
@@ -382,16 +415,18 @@ INFO_DEFS = [("DP", "1", "Integer"), ("AF", "A", "Float"), ("DB", "0", "Flag"), 
              ("SV", "1", "String"), ("H2", "0", "Flag"), ("MQ", "1", "Float"), ("CI", "2", "Integer"), ("AA", "1", "String")]
 
 
-def g_vcf(rng, big, flavour):
+def g_vcf(rng, big, flavour, defs=None, ns=None):
     n = g_rows(rng, big)
     with_info_hdr = rng.random() < 0.7
     if flavour in ("VCFMatrixBuffer", "PhasedVCFMatrixBuffer", "PhasedHaplotypeVCFMatrixBuffer"):
-        ns = rng.choice([1, 2, 3, 4])
+        ns = rng.choice([1, 2, 3, 4]) if ns is None else max(1, ns)
     elif flavour == "VCFBuffer2":
-        ns = rng.choice([0, 1, 2, 3, 4])
+        ns = rng.choice([0, 1, 2, 3, 4]) if ns is None else ns
     else:
-        ns = rng.choice([0, 0, 1, 2])
-    defs = rng.sample(INFO_DEFS, rng.choice([1, 2, 3, 5])) if with_info_hdr else []
+        ns0 = rng.choice([0, 0, 1, 2])
+        ns = ns0 if ns is None else ns
+    if defs is None:
+        defs = rng.sample(INFO_DEFS, rng.choice([1, 2, 3, 5])) if with_info_hdr else []
     head = ["##fileformat=VCFv4.2"]
     if rng.random() < 0.5:
         head.append("##contig=<ID=chr1,length=1000>")
@@ -473,9 +508,84 @@ def g_fastq(rng, big):
     return lines
 
 
-def _case(fmt, lines, crlf, via="open", flavour=None):
+def g_colheader(rng, fmt, big):
+    n = g_rows(rng, big)
+    kinds = [k for _, k in FORMATS[fmt]["cols"]]
+    mode = {"oint": "plain", "trail": "none", "signs": True}
+    return ["\t".join(nm for nm, _ in FORMATS[fmt]["cols"])] + ["\t".join(g_cell(rng, k, mode) for k in kinds) for _ in range(n)]
+
+
+def g_vcf_optional_focus(rng):
+    """typed scalar INFO keys (Optional[float] / Optional[int]) whose column mixes: no leading zero ('.5', '-.5'),
+    a lone '.' (missing), the key absent, ordinary values — at least two rows"""
+    head = ["##fileformat=VCFv4.2",
+            '##INFO=<ID=MQ,Number=1,Type=Float,Description="m q">',
+            '##INFO=<ID=DP,Number=1,Type=Integer,Description="d p">',
+            '##INFO=<ID=AF,Number=A,Type=Float,Description="a f">',
+            "#CHROM\tPOS\tID\tREF\tALT\tQUAL\tFILTER\tINFO"]
+    lines = []
+    for _ in range(rng.choice([2, 3, 4, 6])):
+        items = []
+        r = rng.random()
+        if r < 0.85:
+            items.append("MQ=" + rng.choice([".5", "-.5", "0.5", ".125", ".", ".", "+.25", "7", ".0", "1e-3", "-2.5"]))
+        if rng.random() < 0.7:
+            items.append("DP=" + rng.choice([".", ".", "5", "0", "12", g_uint(rng, 3)]))
+        if rng.random() < 0.6:
+            items.append("AF=" + ",".join(rng.choice([".5", "0.5", ".125", "-.5", "1"]) for _ in range(rng.choice([1, 2, 3]))))
+        rng.shuffle(items)
+        lines.append("\t".join([g_ident(rng), g_uint(rng, 3, lead0=False).lstrip("0") or "1", ".", "A", "C", ".", "PASS",
+                                 ";".join(items) if items else "."]))
+    return head + lines
+
+
+def _retype(rng, d):
+    """the same INFO ID with another declaration"""
+    k, num, t = d
+    alts = [(n2, t2) for n2 in ("1", ".", "A", "2") for t2 in ("Integer", "Float", "String") if (n2, t2) != (num, t)]
+    if t == "Flag" or rng.random() < 0.15:
+        alts += [("0", "Flag")] if t != "Flag" else []
+    n2, t2 = rng.choice(alts)
+    return (k, n2, t2)
+
+
+def pair_cases(tier, rng):
+    """HISTORY inside one process: file A is read, then file B that looks alike to a careless cache key: the same
+    INFO IDs in the same order but other Type/Number; the same header with another buffer flavour; the same column
+    names with other declared types. Each file must be parsed by its own declaration. Both orders."""
+    per = {"quick": 40, "thorough": 500, "widen": 120}[tier]
+    big = tier != "quick"
+    for _ in range(per):
+        fa = rng.choice(VCF_FLAVOURS)
+        fb = fa if rng.random() < 0.6 else rng.choice(VCF_FLAVOURS)
+        defs_a = rng.sample(INFO_DEFS, rng.choice([1, 2, 3]))
+        defs_b = list(defs_a)
+        if fb == fa or rng.random() < 0.5:
+            for i in rng.sample(range(len(defs_b)), rng.randrange(1, len(defs_b) + 1)):
+                defs_b[i] = _retype(rng, defs_b[i])
+        ns = rng.choice([1, 2, 3])
+        a = _case("vcf", g_vcf(rng, big, fa, defs=defs_a, ns=ns), False, flavour=fa)
+        b = _case("vcf", g_vcf(rng, big, fb, defs=defs_b, ns=ns), False, flavour=fb)
+        yield {"op": "parse2", "fmt": "vcf", "first": a, "second": b}
+        yield {"op": "parse2", "fmt": "vcf", "first": b, "second": a}
+    for _ in range(per // 4):
+        a = _case("csvi", g_colheader(rng, "csvi", big), False)
+        b = _case("csvs", g_colheader(rng, "csvs", big), False)
+        yield {"op": "parse2", "fmt": "csv", "first": a, "second": b}
+        yield {"op": "parse2", "fmt": "csv", "first": b, "second": a}
+
+
+def _case(fmt, lines, crlf, via="open", flavour=None, end="nl"):
+    """end: how the FINAL line is terminated: "nl" like every other line, "none" not at all, "lf" by a bare LF (in a
+    CRLF file); the last two only for whole-file reads"""
     eol = "\r\n" if crlf else "\n"
-    c = {"op": "parse", "fmt": fmt, "text": "".join(l + eol for l in lines), "via": via}
+    text = "".join(l + eol for l in lines)
+    if via == "open" and lines:
+        if end == "none":
+            text = text[:-len(eol)]
+        elif end == "lf" and crlf:
+            text = text[:-2] + "\n"
+    c = {"op": "parse", "fmt": fmt, "text": text, "via": via}
     if flavour:
         c["flavour"] = flavour
     return c
@@ -503,25 +613,34 @@ def cases(tier, rng):
         yield _case("sizes", rows, False, via="raw")
     # 2. grammar-directed random files
     per = 60 * mult
+    yield from pair_cases(tier, rng)
+    for _ in range(60 * mult):
+        yield _case("vcf", g_vcf_optional_focus(rng), rng.random() < 0.15, flavour="VCFBuffer")
     for fmt, F in FORMATS.items():
         for _ in range(per * 4 if fmt == "vcf" else per):        # six buffer flavours share the VCF budget
-            crlf = rng.random() < 0.2
+            crlf = rng.random() < 0.25
+            # how the final line ends (whole-file reads): like the others, not at all, or (CRLF files) by a bare LF
+            end = rng.choice(["nl", "nl", "none", "lf"]) if crlf else rng.choice(["nl", "nl", "nl", "none"])
             if fmt == "vcf":
                 fl = rng.choice(VCF_FLAVOURS + ["VCFBuffer2", "VCFBuffer2", "VCFBuffer"])
-                yield _case(fmt, g_vcf(rng, big, fl), crlf, flavour=fl)
+                yield _case(fmt, g_vcf(rng, big, fl), crlf, flavour=fl, end=end)
             elif fmt == "sam":
-                yield _case(fmt, g_sam(rng, big), crlf)
+                yield _case(fmt, g_sam(rng, big), crlf, end=end)
             elif fmt in ("fasta", "fasta2"):
-                yield _case(fmt, g_fasta(rng, big, fmt == "fasta2"), crlf)
+                yield _case(fmt, g_fasta(rng, big, fmt == "fasta2"), crlf, end=end)
             elif fmt == "fastq":
-                yield _case(fmt, g_fastq(rng, big), crlf)
+                yield _case(fmt, g_fastq(rng, big), crlf, end=end)
             elif fmt == "gfa":
                 n = g_rows(rng, big)
-                yield _case(fmt, ["S\t" + g_ident(rng) + "\t" + g_seq(rng, "ACGT") for _ in range(n)], crlf)
+                yield _case(fmt, ["S\t" + g_ident(rng) + "\t" + g_seq(rng, "ACGT") for _ in range(n)], crlf, end=end)
+            elif F.get("colheader"):
+                yield _case(fmt, g_colheader(rng, fmt, big), crlf, end=end)
             else:
                 lines = g_delimited(rng, fmt, big)
+                if F.get("interior") and lines and lines[-1].startswith(F["comment"]) and end != "nl":
+                    end = "nl"
                 via = "raw" if (not any(l.startswith(F["comment"]) for l in lines[:1]) and rng.random() < 0.3) else "open"
-                yield _case(fmt, lines, crlf, via=via)
+                yield _case(fmt, lines, crlf, via=via, end=end)
 
 
 # ------------------------------------------------------------------ observation of the real code
@@ -582,6 +701,8 @@ def _err(e):
 
 
 def impl(c):
+    if c["op"] == "parse2":
+        return {"first": impl(c["first"]), "second": impl(c["second"])}
     import dataclasses
     import logging
     import numpy as np
@@ -654,12 +775,13 @@ def _ref_cell(kind, t):
 
 
 def _ref_lines(text):
-    if not text.endswith("\n"):
+    if text == "":
         raise _Bad
-    lines = text[:-1].split("\n")
-    crlf = all(l.endswith("\r") for l in lines)
+    lines = (text[:-1] if text.endswith("\n") else text).split("\n")
+    # CRLF text: every line but possibly the last (unterminated, or ended by a bare LF) ends in CR
+    crlf = all(l.endswith("\r") for l in lines[:-1]) and any(l.endswith("\r") for l in lines)
     if crlf:
-        lines = [l[:-1] for l in lines]
+        lines = [l[:-1] if l.endswith("\r") else l for l in lines]
     if any("\r" in l for l in lines):
         raise _Bad
     return lines
@@ -675,6 +797,10 @@ def _ref_delimited(c, F):
     lines = lines[i:]
     if F.get("interior"):
         lines = [l for l in lines if not l.startswith(cm)]
+    if F.get("colheader"):
+        if not lines or lines[0].split("\t") != [nm for nm, _ in F["cols"]]:
+            raise _Bad
+        lines = lines[1:]
     if not lines or any(l.startswith(cm) for l in lines):
         raise _Bad
     cols = F["cols"]
@@ -804,6 +930,11 @@ def _ref_fastq(c):
 
 
 def oracle(c):
+    if c["op"] == "parse2":
+        a, b = oracle(c["first"]), oracle(c["second"])
+        if a is SKIP or b is SKIP:
+            return SKIP
+        return {"first": a, "second": b}
     try:
         fmt = c["fmt"]
         if any(ord(ch) > 126 or (ord(ch) < 32 and ch not in "\t\n\r") for ch in c["text"]):
@@ -871,6 +1002,9 @@ def _conv(x):
 
 
 def agree(c, got, exp):
+    if c["op"] == "parse2":
+        return isinstance(got, dict) and agree(c["first"], got.get("first"), exp["first"]) and \
+            agree(c["second"], got.get("second"), exp["second"])
     return _same(_norm_special(c, got), _conv(exp))
 
 
@@ -908,6 +1042,8 @@ def _info_kind(num, typ):
 
 
 def model_request(c):
+    if c["op"] == "parse2" or FORMATS.get(c["fmt"], {}).get("colheader"):
+        return None                      # implementation vs reference parser only
     if c["fmt"] == "vcf":
         fl = c.get("flavour") or "VCFBuffer"
         head = [l.rstrip("\r") for l in c["text"].split("\n") if l.startswith("##INFO")]
@@ -917,6 +1053,8 @@ def model_request(c):
 
 
 def nontrivial(c):
+    if c["op"] == "parse2":
+        return True
     t = c["text"]
     if "\r" in t or "\n#" in t or t.startswith(("#", "@HD")) or "\t." in t or "\t-" in t or "\t+" in t:
         return True
@@ -930,6 +1068,10 @@ def nontrivial(c):
 
 
 def finding_key(c, got, exp):
+    if c["op"] == "parse2":
+        which = "first" if not (isinstance(got, dict) and agree(c["first"], got.get("first"), exp["first"])) else "second"
+        fl = (c["first"].get("flavour"), c["second"].get("flavour"))
+        return f"history:{c['fmt']}:{'same-flavour' if fl[0] == fl[1] else 'other-flavour'}:{which}-file-misparsed"
     fmt = c["fmt"]
     t = c["text"]
     F = FORMATS[fmt]
